@@ -226,7 +226,7 @@ impl PortHandle {
         let path = self.path.clone();
         let res = with(|w| {
             let now = w.now;
-            let chunking = w.cfg.chunk_reads;
+            let chunking = w.cfg.chunk_reads && !w.canonical;
             if buf.remaining() == 0 {
                 w.net.zero_capacity_reads += 1;
                 w.event("zero_capacity_read", 9999, 0);
@@ -285,7 +285,7 @@ impl PortHandle {
         let path = self.path.clone();
         with(|w| {
             let now = w.now;
-            let short = w.cfg.short_writes;
+            let short = w.cfg.short_writes && !w.canonical;
             let mut n = data.len();
             if short && n > 1 {
                 match w.tape.weighted(&[4, 1, 2]) {
